@@ -14,6 +14,8 @@ LEXER_FUNCS = [('Lexer', 'input'), ('Lexer', 'token'), ('Lexer', 'skip'), ('Lexe
                ('Lexer', 'pop_state'), ('Lexer', 'current_state')]
 PARSER_FUNCS = [('LRParser', 'parse'), ('LRParser', 'parseopt_notrack'), ('LRParser', 'errok'), ('LRParser', 'restart'),
                 ('LRParser', 'set_defaulted_states'), ('LRParser', 'disable_defaulted_states'), (None, 'call_errorfunc')]
+# what a parse yields depends on every carried field: each property about parse results relies on the resets
+PARSE_PROPS = ['C11', 'C06', 'C07', 'C15', 'C16', 'C17', 'C18', 'C20']
 DYNAMIC = {'getattr', 'setattr', 'delattr', 'vars', '__dict__', 'globals', 'locals'}
 
 
@@ -169,11 +171,11 @@ def frames(prop, tier, seed):
     obs.append(ob('C11:frames:no-dynamic-attribute-access-in-the-scanned-functions', ['C11'],
                   not [d for d in dyn if 'ply.lex' in d], {'occurrences': dyn}))
     for f in carried:
-        obs.append(ob('C11:frames:carried-lexer-field[%s]-is-reset-by-parse' % f, ['C11', 'C06', 'C20', 'C17'], f in parse_resets,
+        obs.append(ob('C11:frames:carried-lexer-field[%s]-is-reset-by-parse' % f, PARSE_PROPS, f in parse_resets,
                       {'read_by': sorted(reads[f]), 'written_by': sorted(writes[f]), 'parse_resets': sorted(parse_resets)}))
     for f in sorted(lexer_side):
         for sc in scanners:
-            obs.append(ob('C11:frames:carried-lexer-field[%s]-is-reset-by-%s' % (f, sc.name), ['C11', 'C18'], f in resets_of(sc),
+            obs.append(ob('C11:frames:carried-lexer-field[%s]-is-reset-by-%s' % (f, sc.name), ['C11', 'C18', 'C06', 'C15', 'C16', 'C20'], f in resets_of(sc),
                           {'read_by': sorted(reads[f]), 'resets': sorted(resets_of(sc))}))
     obs.append(ob('C11:frames:carried-lexer-fields-are-the-ones-under-contract', ['C11'],
                   set(carried) <= {'lineno', 'paren_count', 'ast'},
@@ -216,4 +218,4 @@ def frames(prop, tier, seed):
     return obs, info
 
 
-extras.register(['C11', 'C06', 'C17', 'C18', 'C20'], frames)
+extras.register(PARSE_PROPS, frames)
